@@ -1,15 +1,21 @@
 #!/bin/bash
-# tools/all_mutants.sh — run every deliberate mutant (mutants/*.patch) and every seeded change
-# (seeded/*/patch.diff) against the quick check of its property; print the ones NOT caught.
+# tools/all_mutants.sh [jobs] — run every deliberate mutant (mutants/*.patch) and every seeded change
+# (seeded/*/patch.diff) against the quick check of its property, each in its own scratch worktree
+# (tools/pmutant.sh), `jobs` at a time (default 4); print the ones NOT caught. /repo must be clean.
 cd /verif
-miss=0; n=0
-for p in mutants/*.patch seeded/*/patch.diff; do
+J=${1:-4}
+if ! git -C /repo diff --quiet; then echo "/repo has uncommitted changes"; exit 2; fi
+one() {
+  p=$1
   case $p in
     mutants/*) id=$(basename $p | cut -c1-3);;
     seeded/*) id=$(basename $(dirname $p) | cut -c1-3);;
   esac
-  out=$(tools/mutant.sh $p $id 2>&1 | grep "^mutant=")
-  n=$((n+1))
-  if echo "$out" | grep -q "exit=1"; then :; else echo "NOT-CAUGHT $p :: $out"; miss=$((miss+1)); fi
-done
-echo "mutants+seeded run: $n, not caught: $miss"
+  out=$(tools/pmutant.sh $p $id 2>&1 | grep "^mutant=")
+  if echo "$out" | grep -q "exit=1"; then echo "caught $p"; else echo "NOT-CAUGHT $p :: $out"; fi
+}
+export -f one
+ls mutants/*.patch seeded/*/patch.diff | xargs -P $J -I{} bash -c 'one {}' > /tmp/all_mutants.$$ 2>&1
+grep NOT-CAUGHT /tmp/all_mutants.$$
+echo "mutants+seeded run: $(wc -l < /tmp/all_mutants.$$), not caught: $(grep -c NOT-CAUGHT /tmp/all_mutants.$$)"
+rm -f /tmp/all_mutants.$$
